@@ -65,6 +65,44 @@ Ltac unfold_machine :=
   unfold step, loop_once, read_pending, refused_connack, failed, rc_handle, loop_up, write_disconnect,
     do_reconnect, reconnect_wait, callback, apply_act in *.
 
+(* ------------------------------------------------------------------ what a callback / a wait can change *)
+
+Definition same_conn (s s1 : bst) : Prop :=
+  b_now s1 = b_now s /\ b_delay s1 = b_delay s /\ b_sock s1 = b_sock s /\ b_p311 s1 = b_p311 s /\
+  b_script s1 = b_script s /\ b_n s1 = b_n s.
+
+(* the application's action: the state changes only in _state / _thread_terminate / the out queue *)
+Definition acted_from (s s1 : bst) : Prop :=
+  b_acted s = false /\ b_acted s1 = true /\ should_exit s1 = true /\
+  ((b_term s1 = true /\ b_cs s1 = b_cs s /\ b_outq s1 = b_outq s)
+   \/ (b_term s1 = b_term s /\ b_sock s = NoSock /\ b_cs s1 = BDisconnected /\ b_outq s1 = b_outq s)
+   \/ (b_term s1 = b_term s /\ b_sock s <> NoSock /\ b_cs s1 = BDisconnecting /\ b_outq s1 = true)).
+
+Lemma apply_act_spec k s : b_acted s = false ->
+  same_conn s (apply_act k s) /\ acted_from s (apply_act k s).
+Proof.
+  intros Ha. destruct s as [nw dl cs sk p3 tm oq sc n ac]. bproj. subst ac.
+  unfold apply_act, same_conn, acted_from, should_exit. bproj.
+  destruct k; [destruct sk|]; bproj; cbn [disc_like orb];
+    repeat split; try reflexivity; try (rewrite orb_true_r; reflexivity);
+    try (left; repeat split; reflexivity);
+    try (right; left; repeat split; reflexivity);
+    try (right; right; repeat split; try reflexivity; discriminate).
+Qed.
+
+Lemma wants_acted cfg s pl k : wants cfg s pl = Some k -> b_acted s = false.
+Proof. unfold wants. destruct (b_acted s); [discriminate|reflexivity]. Qed.
+
+Lemma callback_spec cfg pl rc s s1 e1 : callback cfg pl rc s = (s1, e1) ->
+  same_conn s s1 /\
+  ((s1 = s /\ e1 = [EvCb (b_now s) pl rc])
+   \/ (exists k, acted_from s s1 /\ e1 = [EvCb (b_now s) pl rc; EvAct (b_now s) k])).
+Proof.
+  unfold callback. destruct (wants cfg s pl) as [k|] eqn:W; intros H; inv H.
+  - destruct (apply_act_spec k s (wants_acted _ _ _ _ W)) as (F & A). split; [exact F|]. right. exists k. split; [exact A|reflexivity].
+  - split; [unfold same_conn; repeat split; reflexivity|]. left. split; reflexivity.
+Qed.
+
 (* ------------------------------------------------------------------ termination *)
 
 Definition lrank (p : pc) (s : bst) : nat :=
@@ -75,21 +113,60 @@ Definition lrank (p : pc) (s : bst) : nat :=
   | PcInner =>
       match b_sock s with
       | NoSock => 3
-      | Up _ None => if b_outq s then 4 else 5
-      | Up _ (Some _) => 6
-      | Pending _ => 7
+      | Up _ None => 4
+      | Up _ (Some _) => 5
+      | Pending _ => 6
       end
-  | PcFirst => 8
+  | PcFirst => 7
   end.
-Definition rank (p : pc) (s : bst) : nat := 9 * length (b_script s) + lrank p s.
+Definition rank (p : pc) (s : bst) : nat := 8 * length (b_script s) + lrank p s.
+
+Lemma wait_frame cfg s s1 e1 : reconnect_wait cfg s = (s1, e1) ->
+  b_sock s1 = b_sock s /\ b_script s1 = b_script s /\ b_p311 s1 = b_p311 s /\ b_n s1 = b_n s /\
+  b_delay s1 = Some (next_delay cfg (b_delay s)).
+Proof.
+  unfold reconnect_wait. destruct (should_exit _); [intros H; inv H; bproj; repeat split; reflexivity|].
+  destruct (wants_wait _ _ _) as [[j k]|] eqn:W; intros H; inv H.
+  - unfold wants_wait in W. bproj. destruct (b_acted s) eqn:Ea; [discriminate|].
+    destruct (apply_act_spec k (set_now (b_now s + j) (set_delay (Some (next_delay cfg (b_delay s))) s)) Ea)
+      as ((_ & F2 & F3 & F4 & F5 & F6) & _). bproj. repeat split; assumption.
+  - bproj. repeat split; reflexivity.
+Qed.
+
+Ltac frames :=
+  repeat match goal with
+  | H : callback _ _ _ _ = (_, _) |- _ =>
+      let F := fresh "F" in pose proof (proj1 (callback_spec _ _ _ _ _ _ H)) as F; unfold same_conn in F; bproj;
+      destruct F as (? & ? & ? & ? & ? & ?); clear H
+  | H : reconnect_wait _ _ = (_, _) |- _ =>
+      let F := fresh "F" in pose proof (wait_frame _ _ _ _ H) as F; bproj; destruct F as (? & ? & ? & ? & ?); clear H
+  end.
+
+Ltac bcase1 :=
+  match goal with
+  | |- context [match ?x with _ => _ end] =>
+      lazymatch x with
+      | context [match _ with _ => _ end] => fail
+      | _ => destruct x eqn:?
+      end
+  end.
+Ltac bcases := repeat (bcase1; bproj; cbn beta iota zeta).
+
+Ltac unfold_ctl :=
+  unfold step, loop_once, loop_up, read_pending, refused_connack, failed, rc_handle, write_disconnect, do_reconnect in *.
 
 Lemma step_decreases cfg p s : is_done p = false ->
   (rank (st_pc (step cfg p s)) (st_st (step cfg p s)) < rank p s)%nat.
 Proof.
   intros Hd. destruct s as [nw dl cs sk p3 tm oq sc n ac]. unfold rank.
-  destruct p; try discriminate; unfold_machine; bproj.
-  - bcase; bproj; unfold lrank; bproj; cbn [length]; try lia; bcase; lia.
-  - bcase; bproj; unfold lrank; bproj; cbn [length] in *; try lia; bcase; bproj; try lia.
-  - bcase; bproj; unfold lrank; bproj; cbn [length]; lia.
-  - bcase; bproj; unfold lrank; bproj; cbn [length]; try lia; bcase; lia.
+  destruct p; try discriminate; unfold_ctl; bproj.
+  - bcases; frames; unfold lrank; bproj; cbn [length];
+      repeat match goal with H : _ = _ |- _ => rewrite H end; bproj; cbn [length]; try lia; bcases; lia.
+  - bcases; frames; unfold lrank; bproj; cbn [length];
+      repeat match goal with H : b_sock _ = _ |- _ => rewrite H | H : b_script _ = _ |- _ => rewrite H end;
+      bproj; cbn [length]; try lia; bcases; try lia.
+  - bcases; frames; unfold lrank; bproj; cbn [length]; lia.
+  - bcases; frames; unfold lrank; bproj; cbn [length];
+      repeat match goal with H : b_sock _ = _ |- _ => rewrite H | H : b_script _ = _ |- _ => rewrite H end;
+      bproj; cbn [length]; try lia.
 Qed.
